@@ -295,6 +295,7 @@ def run_history(seed):
         cluster.metadata.keyspaces['nts42'] = KeyspaceMetadata('nts42', True, 'NetworkTopologyStrategy', dict((d, str(n)) for d, n in NTS_RF.items()))
         env.world.settle()
         prev_exp, prev_obs_tm = {}, None
+        built = {'tm': None, 'ctrl_loc': None}       # the TokenMap object whose per-keyspace replica maps were computed, and the control node's location then
         for k in range(nsteps):
             if k > 0:
                 kind = gen.step()
@@ -425,6 +426,8 @@ def run_history(seed):
                     # 6. replicas on the rebuilt ring
                     ring = sorted(exp_tm.items())
                     locations = dict((a, v[1:3]) for a, v in exp.items())
+                    if built['tm'] is not tm:
+                        built = {'tm': tm, 'ctrl_loc': locations[CONTROL]}
                     for t, h in tm.token_to_host_owner.items():
                         if hosts.get(h.endpoint.address) is not h:
                             viol.append(('token-owner-is-not-a-current-member', 'token %d is owned by a Host object that is not the one in all_hosts()' % t.value, wit_tm))
@@ -442,7 +445,15 @@ def run_history(seed):
                         ngot = sorted(h.endpoint.address for h in nreps)
                         nwant = sorted(placement.network_topology(ring, locations, NTS_RF, tv)[0])
                         stats['nts_replica_checks'] += 1
-                        if ngot != nwant:
+                        stale = None
+                        if ngot != nwant and built['ctrl_loc'] != locations[CONTROL]:
+                            # same TokenMap object as when the control node was elsewhere: is this exactly the placement of that time?
+                            stale = sorted(placement.network_topology(ring, dict(locations, **{CONTROL: built['ctrl_loc']}), NTS_RF, tv)[0])
+                        if ngot != nwant and stale == ngot:
+                            viol.append(('nts-replicas-stale-after-control-node-location-change',
+                                         'token %d: the control node moved %r -> %r, token map not rebuilt: NetworkTopologyStrategy replicas %r are those of the old location, fresh placement %r' % (
+                                             tv, built['ctrl_loc'], locations[CONTROL], ngot, nwant), dict(wit_tm, locations=locations)))
+                        elif ngot != nwant:
                             viol.append(('nts-replicas-differ-from-fresh-placement', 'token %d: NetworkTopologyStrategy %r replicas %r, fresh placement on the snapshot %r' % (
                                 tv, NTS_RF, ngot, nwant), dict(wit_tm, locations=locations)))
                         if any(hosts.get(h.endpoint.address) is not h for h in list(reps) + list(nreps)):
